@@ -306,7 +306,9 @@ def c07(tier, seed):
     build.build_many([("drv_seq", v) for v in variants])
     ops = tier_n(tier, 1200, 2500)
     setups = [(0, {}), (1, {}), (2, {}), (3, {}), (4, {}), (1, {"MIMALLOC_DISALLOW_ARENA_ALLOC": "1"}), (1, {"MIMALLOC_EAGER_COMMIT": "0", "MIMALLOC_ARENA_EAGER_COMMIT": "0"}), (2, {"MIMALLOC_PURGE_DELAY": "0"})]
-    if tier == "quick": setups = setups[:5] + setups[5:6]
+    setups.append((2, {"MIMALLOC_ARENA_EAGER_COMMIT": "0"}))      # arena memory committed on demand: a refused commit of a huge segment
+    setups.append((4, {"MIMALLOC_ARENA_EAGER_COMMIT": "0", "MIMALLOC_EAGER_COMMIT": "0"}))
+    if tier == "quick": setups = setups[:5] + setups[5:6] + setups[8:9]
     # 1. clean runs: count the OS calls of every workload
     counts = {}
     clean = []
